@@ -5,28 +5,40 @@ use crate::run::{Env, RunResult, Sub};
 
 pub mod c01;
 pub mod c02;
+pub mod c03;
 pub mod c04;
+pub mod c05;
+pub mod c06;
 pub mod c09;
 pub mod c07;
 pub mod c08;
 pub mod c10;
+pub mod c11;
+pub mod c12;
+pub mod c13;
 pub mod c14;
 pub mod c15;
 pub mod c19;
 pub mod c20;
 pub mod strings;
 
-pub const ALL: &[&str] = &["C01", "C02", "C04", "C07", "C08", "C09", "C10", "C14", "C15", "C16", "C17", "C18", "C19", "C20"];
+pub const ALL: &[&str] = &["C01", "C02", "C03", "C04", "C05", "C06", "C07", "C08", "C09", "C10", "C11", "C12", "C13", "C14", "C15", "C16", "C17", "C18", "C19", "C20"];
 
 pub fn all_subs() -> Vec<Sub> {
     let mut v = Vec::new();
     v.extend(c01::subs());
     v.extend(c02::subs());
+    v.extend(c03::subs());
     v.extend(c04::subs());
+    v.extend(c05::subs());
+    v.extend(c06::subs());
     v.extend(c09::subs());
     v.extend(c07::subs());
     v.extend(c08::subs());
     v.extend(c10::subs());
+    v.extend(c11::subs());
+    v.extend(c12::subs());
+    v.extend(c13::subs());
     v.extend(c14::subs());
     v.extend(c15::subs());
     v.extend(c19::subs());
@@ -47,11 +59,17 @@ pub fn run(env: &mut Env) -> Option<RunResult> {
     Some(match env.prop {
         "C01" => c01::run(env),
         "C02" => c02::run(env),
+        "C03" => c03::run(env),
         "C04" => c04::run(env),
+        "C05" => c05::run(env),
+        "C06" => c06::run(env),
         "C09" => c09::run(env),
         "C07" => c07::run(env),
         "C08" => c08::run(env),
         "C10" => c10::run(env),
+        "C11" => c11::run(env),
+        "C12" => c12::run(env),
+        "C13" => c13::run(env),
         "C14" => c14::run(env),
         "C15" => c15::run(env),
         "C16" => strings::run_c16(env),
@@ -106,10 +124,28 @@ pub fn meta(prop: &str) -> Meta {
             "tape-generated valid packets are encoded by the library and decoded by the harness' reference decoder (written from the OASIS specs); the recovered wire-level values must equal project(packet), a name-keyed spec-number mapping that never uses `as u8`. Non-trivial: encoding longer than 4 bytes; distinct by hash of the encoding. Every reason/return code, property id per context and protocol level is required to have been exercised",
             &[COMMON_ASSUME, BOUNDS],
         ),
+        "C03" => Meta {
+            two_profiles: true,
+            ..m(
+                "exploration",
+                "every decoder entry point of both families (blocking, async, poll one-shot and one-byte-per-read with Pending and drop/re-create, Header::decode, Header::decode_async, decode_raw_header) on: all byte strings up to 2 (quick) / 3 (thorough) bytes, every 2-byte header followed by 18 short bodies, hand-written maximal-length headers, and tape-generated corruptions from the shared corpus generator (bit flips, length-field edits, truncation, extension, splicing, catalogue malformations, random bytes). Oracle: returns packet / incomplete / error; no panic (overflow checks and debug assertions on in the relcheck profile), no abort (handler dumps the parked case), no transport polled beyond its call bound; both build profiles. Non-trivial: input with a valid type nibble and a complete remaining-length field (reaches a body decoder); distinct by hash / by construction",
+                &[COMMON_ASSUME, "termination is established through call bounds on the explored inputs only; reads of uninitialised memory are judged by ASan (fuzzing) and Miri (fixed suite) in the thorough tier, not here"],
+            )
+        },
         "C04" => m(
             "exploration",
             "complete, minimally encoded frames: grammar-generated well-formed frames (valid packets projected to the wire model and re-spelled: long/short ack forms, shuffled properties, explicit empty property sections), the same with 1-3 injected catalogue malformations, and byte-mutated bodies with the header re-synthesised; oracle = the reference decoder under the pinned grammar (accept <=> accept, and on accept the normalised field values, total and body must agree). Frames that are incomplete or contain non-minimal var-ints are outside the quantifier and counted as skipped. Non-trivial/distinct: distinct frames (hash); classes = accept / each reject class, all of which must be reached",
             &[COMMON_ASSUME, BOUNDS, "the pinned leniencies L1-L8 and strictnesses S1-S4 (DESIGN.md §5) are part of the oracle"],
+        ),
+        "C05" => m(
+            "exploration",
+            "delivery schedules of the poll decoder: exhaustively every composition of the stream into chunks x {no Pending, Pending before every read, Pending before every read with the future dropped and re-created from the caller-held state at every Pending} for a fixed list of short streams (shortest packet of every type, long-form spellings, catalogue malformations, truncations, trailing bytes, non-minimal headers; length <= 15 quick / 18 thorough), and random schedules (chunks 1..64, Pending with p=1/3, random drop masks, forced interruption inside the var-int) for corpus-generated streams with 1-4 byte headers. Oracle: the uninterrupted one-shot run on the same bytes (result, total, body), Pending only when the transport returned Pending in that poll, every requested capacity <= bytes left in the frame (frame end from the harness' header parse), consumed = reported total on success, consumed <= frame end on error. Non-trivial: schedule with >= 2 body reads or a drop at a Pending; distinct by construction (exhaustive part) / hash of the stream",
+            &[COMMON_ASSUME],
+        ),
+        "C06" => m(
+            "exploration",
+            "byte strings from the shared corpus generator (valid encodings, +suffix, re-spelled incl. non-minimal var-ints, lenient framing, catalogue malformations, byte mutations, random bytes, two spliced frames) given to the three front-ends: blocking = async with EOF mapped to Ok(None) and Header::decode = Header::decode_async on every string; on strings that start with a complete frame (decided by the harness' header parse) poll-accept => same packet from both lenient decoders, poll-reject other than InvalidRemainingLength => the same error value from both. Non-trivial: string starts with a complete frame; distinct by hash; classes per poll outcome",
+            &[COMMON_ASSUME],
         ),
         "C07" => m(
             "exploration",
@@ -120,6 +156,25 @@ pub fn meta(prop: &str) -> Meta {
             "exploration",
             "tape-generated sequences of 1..8 valid packets (mixed types, body-less packets, thorough: a 4-byte-header packet) concatenated and decoded one packet at a time by the blocking decoder (offsets advanced by encode_len and independently by the header), the async decoder on a shared slice and on a scripted chunked transport with Pending, and the poll decoder with a fresh state per packet; sequence equality, byte accounting and EOF at the clean boundary. Non-trivial: >= 2 packets of >= 2 different types; distinct by hash of the stream",
             &[COMMON_ASSUME, BOUNDS],
+        ),
+        "C11" => Meta {
+            two_profiles: true,
+            compare_digests: true,
+            ..m(
+                "exploration",
+                "byte strings from the shared corpus generator; for every acceptance by the async, blocking or poll decoder (with the measured number of consumed bytes): re-encode without error or panic, decode the re-encoding on all three front-ends back to the same packet, re-encoding not longer than what was consumed (the listed known finding K1 is tolerated by exact signature and counted). Both build profiles; digests of all re-encodings compared. Non-trivial: accepted input whose consumed bytes differ from the re-encoding (genuinely non-canonical); distinct by hash",
+                &[COMMON_ASSUME],
+            )
+        },
+        "C12" => m(
+            "exploration",
+            "byte strings from the shared corpus generator; for every packet returned by the blocking, async or poll decoder a field walk (structs destructured exhaustively): every text field valid UTF-8 (std), topic names/filters pass the library's predicate and the harness' split-based one, shared accessors neither panic nor disagree with the text, pids non-zero, var-int fields < 2^28, payloads flagged UTF-8 are UTF-8. Non-trivial: accepted packet with at least one text field; distinct by hash of the input; every field label must be reached",
+            &[COMMON_ASSUME],
+        ),
+        "C13" => m(
+            "exploration",
+            "tape-generated valid CONNECTs of v3.1 / v3.1.1 presented to the v5 decoders and of v5.0 presented to the v3 decoders (blocking, async, poll): exact UnexpectedProtocol error, bytes consumed by the async decoder = header + 2 + name + 1, continuation with the matching family's decode_with_protocol equals the native decode; plus the exhaustive grid of 256 levels x 19 protocol names (legal, case variants, truncations, extensions, empty, 1 KiB, non-UTF-8) against both families and all front-ends and Protocol::new. Non-trivial: every cross-family CONNECT and grid cell; distinct by hash / by construction",
+            &[COMMON_ASSUME],
         ),
         "C14" => m(
             "fault_enumeration",
